@@ -10,7 +10,7 @@ for f in "$@"; do
 import sys, json, os
 al = []
 t, pid_ = os.environ["T"], os.environ["ID"]
-with open("/tmp/benign_detail.log", "a") as log:
+with open(os.environ.get("BLOG", "/tmp/benign_detail.log"), "a") as log:
     for l in sys.stdin:
         d = json.loads(l)
         if d["rc"] != 0:
